@@ -47,6 +47,21 @@ func (s *Session) ExecQuery(q string) error {
 		return nil
 	case sql.UseStatement:
 		var err error
+		// close the database selected so far (flush its pages, stop its flush
+		// timer) before another store is opened, possibly on the same file.
+		// Only when the target exists, so that a failing USE changes nothing.
+		if s.RelationService != nil {
+			exists, err := databaseExists(stmt.DBName)
+			if err != nil {
+				return err
+			}
+			if exists {
+				if err := s.RelationService.Close(); err != nil {
+					return err
+				}
+				s.CurDB, s.RelationService = "", nil
+			}
+		}
 		prevDB, prevRS := s.CurDB, s.RelationService
 		s.CurDB = stmt.DBName
 		s.RelationService, err = storage.OpenRelation(stmt.DBName, true)
@@ -104,6 +119,19 @@ func (s *Session) ExecQuery(q string) error {
 	}
 
 	return nil
+}
+
+func databaseExists(name string) (bool, error) {
+	rows, _, err := storage.ShowDB()
+	if err != nil {
+		return false, err
+	}
+	for _, row := range rows {
+		if row.Vals[0] == strings.ToLower(name) {
+			return true, nil
+		}
+	}
+	return false, nil
 }
 
 func parseSQL(q string) (interface{}, error) {
